@@ -28,6 +28,8 @@ type Obligation struct {
 	Probes  []Probe
 	Props   []string // properties this obligation serves
 	Lambda  bool
+	NAssumePre int // covers: assumptions in force before the step (-1: none)
+	PreRes  SolveResult
 
 	// result
 	Res SolveResult
@@ -147,11 +149,18 @@ func (ex *Exec) propsFor(kind string) []string {
 // pc must be satisfiable (a contradictory contract would make everything after
 // this point vacuously true).
 func (ex *Exec) cover(what string, pos token.Pos, pc *Term) {
+	ex.coverFrom(what, pos, pc, -1)
+}
+
+// coverFrom: nPre is the number of assumptions in force before the step whose
+// contract is being checked for contradiction; the step is only blamed if the
+// point before it was reachable.
+func (ex *Exec) coverFrom(what string, pos token.Pos, pc *Term, nPre int) {
 	if ex.dry > 0 || pc == False {
 		return
 	}
 	o := &Obligation{Name: fmt.Sprintf("%s/cover:%s#%d", ex.rootName, what, len(ex.covers)+1), Func: ex.rootName, Kind: "cover",
-		PC: pc, Goal: False, NAssume: len(ex.assumes), Clause: "reachable: " + what}
+		PC: pc, Goal: False, NAssume: len(ex.assumes), Clause: "reachable: " + what, NAssumePre: nPre}
 	if pos.IsValid() {
 		o.Pos = ex.fset.Position(pos)
 	}
